@@ -482,6 +482,42 @@ def rule_store(R):
             lab = {"Lt": False, "Ge": True, "Eq": True, "Ne": False}.get(op)     # acc < len: complete on false; acc >= len: on true
             if lab is not None and si["edges"].get(lab) is not None:
                 done_edges.append((sb, si["edges"][lab]))
+        # ... or the step asks the bookkeeping: the flag tested is the result of a chain of local calls that ends in
+        # SendState::set_written and hands that function's own `reached Flush` answer through unchanged (a dispatcher over the
+        # packet kind, the three setters -- which may only add `false` for "no such entry" -- and set_written returning
+        # `*self == Flush` right after storing Flush exactly on `written >= len`)
+        if ok:   # store/set_written holds: Flush is stored exactly on written >= len
+            def reports_done(t_, depth=0):
+                t_ = peel(t_)
+                if depth > 4:
+                    return False
+                alts_ = [peel(a_) for a_ in phi_alts(t_)]
+                if len(alts_) > 1:
+                    calls_ = [a_ for a_ in alts_ if a_[0] == "call"]
+                    rest_ = [a_ for a_ in alts_ if a_[0] != "call"]
+                    return bool(calls_) and all(a_[0] == "const" and a_[2] == 0 for a_ in rest_) and all(reports_done(a_, depth + 1) for a_ in calls_)
+                if t_[0] != "call" or t_[2] not in f.bodies:
+                    return False
+                cb_ = f.bodies[t_[2]]
+                if cb_.name == sw.name:
+                    r_ = peel(cb_.local_term(0))
+                    if is_call(r_, "PartialEq::eq", "eq") and len(r_[3]) == 2:
+                        x_, y_ = peel(r_[3][0]), peel(r_[3][1])
+                        for u_, v_ in ((x_, y_), (y_, x_)):
+                            while u_[0] in ("ref", "deref"):
+                                u_ = peel(u_[1])
+                            if u_ == ("param", "self") and v_[0] == "agg" and (v_[2] or "") == st and v_[3] == "Flush":
+                                return True
+                    return False
+                if cb_.kind not in ("fn", "assoc_fn") or cb_.is_async:
+                    return False
+                return reports_done(f.code(cb_).local_term(0), depth + 1)
+            for sb in pcode.switches:
+                if sb not in pcode.reachable:
+                    continue
+                si = pcode.switch_info(sb)
+                if reports_done(si["subject"]) and si["edges"].get(True) is not None:
+                    done_edges.append((sb, si["edges"][True]))
         for w in wcalls:
             after = pcode.reach([w.target]) if w.target is not None else set()
             for c in fcalls:
